@@ -24,6 +24,7 @@ type c02case struct {
 	chunk  int
 	zero   int
 	plan   string // what the stream was constructed to hit
+	label  string
 }
 
 func c02run(r *hk.Reporter, c *c02case) {
@@ -47,6 +48,11 @@ func c02run(r *hk.Reporter, c *c02case) {
 		"model_rejects": model.Rejected, "model_r": hk.Hex(ref.B32(model.R)), "model_s": hk.Hex(ref.B32(model.S)),
 		"got_r": hexOrNil(rr), "got_s": hexOrNil(ss), "err": errStr(err), "consumed": rd.off, "model_consumed": model.Consumed}
 	cls := "rejects=[" + got + "]"
+	if c.label != "" {
+		cls = c.label + ":" + cls
+		x1e := new(big.Int).Add(ref.Int(c.e), ref.BaseMulFast(ref.Int(c.stream[model.Consumed-32:model.Consumed])).X)
+		r.Count(fmt.Sprintf("e_plus_x1_div_n_%d", new(big.Int).Div(x1e, nI).Int64()), 1)
+	}
 	switch {
 	case p:
 		detail["panic"] = msg
@@ -118,6 +124,25 @@ func TestVerifC02(t *testing.T) {
 		for j := 0; j < 3; j++ {
 			d := keys[rng.Intn(len(keys))]
 			cases = append(cases, &c02case{d: d, priv: ref.B32(d), e: rng.Bytes(32), stream: append(ref.B32(k), rng.Bytes(32*6)...), plan: "random"})
+		}
+	}
+	// nonces from the rare-x1 fixture (x1 within 2^225 of 2^256, or below 2^226) with digests at the
+	// boundaries where e + x1 crosses 2n / n; preceded sometimes by a range reject
+	rare, rerr := rareNonceCases(rng)
+	if rerr != nil {
+		r.Inconclusive("rare-nonce fixture: " + rerr.Error())
+		return
+	}
+	for i, rc := range rare {
+		for j := 0; j < 2; j++ {
+			d := keys[(i*7+j*3)%len(keys)]
+			var stream []byte
+			if j == 1 {
+				stream = append(stream, rangeRejects(rng)[i%5]...)
+			}
+			stream = append(append(stream, ref.B32(rc.k)...), ref.B32(randScalar(rng))...)
+			stream = append(stream, rng.Bytes(32*4)...)
+			cases = append(cases, &c02case{d: d, priv: ref.B32(d), e: rc.e, stream: stream, chunk: chunks[rng.Intn(len(chunks))], plan: "random", label: rc.label})
 		}
 	}
 	// (b) the rule matrix: 0..3 range rejects, then optionally one digest-dependent
